@@ -20,4 +20,19 @@ CHECKS = {
     },
 }
 
+CHECKS["C06"] = {
+    "category": "model_checking",
+    "text": "spec/Skip.tla transcribes the skip loop of both feature variants as a step machine (one action per iteration); TLC checks on every "
+            "token sequence up to a bound (well-formed items with suffixes, strict prefixes, ill-formed sequences) that it refines the RFC 8949 item "
+            "boundary (spec/SkipProp.tla, spec/CborWire.tla) - exact end on success, error on every strict prefix, refusal only without alloc and only "
+            "for nested indefinite containers, linear work. Every explored input is replayed on the real decoder in the alloc and the no-alloc build; "
+            "random deep trees, suffixes, prefixes, mutations and chains to depth 500 (4000 thorough) are recorded and validated by TLC, together with a "
+            "full decode of the same item through the typed accessors.",
+    "design_ref": "DESIGN.md section 6, C06",
+    "note": "Trusted: TLC, the transcription of RFC 8949 section 3, the harness projection. Invalid UTF-8 text makes an item invalid though well-formed: "
+            "both exact advance and an error are accepted there. Step counts are checked on the model only (no hook installed).",
+    "technique": "TLA+ step-machine spec of skip (Skip/SkipProp) + TLC refinement check + spec->impl replay in two feature builds + trace validation",
+    "engine": "tlc+vh",
+}
+
 NOT_YET = "check not built yet in this round (planned in DESIGN.md section 10); not claimed until it exists"
